@@ -351,6 +351,29 @@ def illtyped(ctx, rng, g, s):
     except Exception as e:
         ctx.count('illtyped_other_exception:' + type(e).__name__)
     ctx.case(('illtyped', sk), nontrivial=True)
+    # clashes between two DIFFERENT type variables (and between constructors around them): the declared variables
+    # x::'a, y::'b, f::'a=>'b, xs::'a list, ys::'b list must not be unified with each other
+    ta, tb = ('tv', rng.choice(['a', 'c'])), ('tv', rng.choice(['b', 'd']))
+    lT = lambda T: ('tc', 'list', (T,))
+    decl = {'x': ta, 'y': tb, 'f': S.fun(ta, tb), 'P': S.fun(ta, S.BOOL), 'xs': lT(ta), 'ys': lT(tb), 'g': S.fun(tb, tb)}
+    v = lambda n: ('var', n, N)
+    eqc, consc = ('const', 'equals', N), ('const', 'cons', N)
+    pool2 = [S.mk_comb(eqc, v('x'), v('y')), ('comb', v('f'), v('y')), ('comb', v('P'), ('comb', v('f'), v('x'))),
+             S.mk_comb(eqc, v('xs'), v('ys')), S.mk_comb(consc, v('x'), v('ys')), ('comb', v('g'), v('x')),
+             ('abs', 'z', N, S.mk_comb(eqc, ('comb', v('g'), ('bound', 0)), v('x'))),
+             S.mk_comb(eqc, ('comb', v('f'), v('x')), v('x'))]
+    sk2 = rng.choice(pool2)
+    context.set_context(None, vars={n_: S.to_repo_type(T_) for n_, T_ in decl.items()})
+    ctx.count('gen_illtyped')
+    ctx.count('gen_illtyped_type_variable_clash')
+    try:
+        infertype.type_infer(skeleton_term(sk2))
+        ctx.count('illtyped_type_variable_clash_returned')
+    except infertype.TypeInferenceException:
+        ctx.count('illtyped_rejected')
+    except Exception as e:
+        ctx.count('illtyped_other_exception:' + type(e).__name__)
+    ctx.case(('illtyped2', sk2, ta, tb), nontrivial=True)
 
 
 def run_hist(ctx, spec):
